@@ -126,11 +126,11 @@ func TestC05StoreBeforeAck(t *testing.T) {
 				}
 				shutdownFaulty := func(k int) bool { return p.Shutdown && k == len(p.Events)-1 && has(dest, 2) }
 				type pubEv struct {
-					qos      int32
-					id       int32
-					payload  string
-					faulty   bool // some destination write is expected to fail
-					seqSent  int64
+					qos     int32
+					id      int32
+					payload string
+					faulty  bool // some destination write is expected to fail
+					seqSent int64
 				}
 				var pubs []*pubEv
 				nextID := int32(10)
